@@ -198,12 +198,12 @@ pub mod probes {
     static PROBES: Mutex<Vec<Probe>> = Mutex::new(Vec::new());
     static ARRIVALS: [AtomicUsize; 16] = [const { AtomicUsize::new(0) }; 16];
     pub fn probe_reset() { PROBES.lock().unwrap_or_else(|e| e.into_inner()).clear(); for a in ARRIVALS.iter() { a.store(0, Ordering::SeqCst); } }
-    /// called by the callback of (branch, step): records the thread it runs on, then waits (up to 30 s) until all
+    /// called by the callback of (branch, step): records the thread it runs on, then waits (up to 10 s) until all
     /// `expected` active branches of the step have arrived - they can only all arrive if they are alive at the same time
     pub fn probe(branch: u8, step: u8, expected: usize) {
         let t = std::thread::current();
         ARRIVALS[step as usize].fetch_add(1, Ordering::SeqCst);
-        let deadline = Instant::now() + Duration::from_secs(30);
+        let deadline = Instant::now() + Duration::from_secs(10);
         let mut ok = true;
         while ARRIVALS[step as usize].load(Ordering::SeqCst) < expected {
             if Instant::now() > deadline { ok = false; break; }
@@ -230,11 +230,11 @@ pub mod probes {
         }
         Ok(())
     }
-    /// runs `f` on a helper thread and waits up to 60 s: None = the caller would have been left blocked
+    /// runs `f` on a helper thread and waits up to 25 s: None = the caller would have been left blocked
     pub fn with_watchdog<T: Send + 'static>(f: impl FnOnce() -> T + Send + 'static) -> Option<T> {
         let (tx, rx) = std::sync::mpsc::channel();
         std::thread::Builder::new().name("main".into()).spawn(move || { let _ = tx.send(f()); }).unwrap();
-        rx.recv_timeout(Duration::from_secs(60)).ok()
+        rx.recv_timeout(Duration::from_secs(25)).ok()
     }
 }
 #[cfg(not(kani))]
